@@ -59,6 +59,65 @@ theorem guess_errText (e : ErrT) : guess F e.text = .err e := by
 theorem fmt_no_ws (hF : F.Sound) (n : F.Num) : ∀ c ∈ F.fmt n, isXmlWs c = false :=
   fun c hc => (numChar_props (hF.fmt_chars n c hc)).2.2.2
 
+/-- what `guess_typed_data` can return: empty, a boolean, an error, a number, or the text itself —
+    never rich text, never a lazy value -/
+theorem guess_cases (s : Text) :
+    guess F s = .empty ∨ (∃ b, guess F s = .bool b) ∨ (∃ e, guess F s = .err e) ∨ (∃ n, guess F s = .num n) ∨
+      guess F s = .str s := by
+  unfold guess
+  simp only []
+  split
+  · exact Or.inl rfl
+  · split
+    · exact Or.inr (Or.inl ⟨true, rfl⟩)
+    · split
+      · exact Or.inr (Or.inl ⟨false, rfl⟩)
+      · split
+        · exact Or.inr (Or.inr (Or.inl ⟨_, rfl⟩))
+        · split
+          · exact Or.inr (Or.inr (Or.inr (Or.inl ⟨_, rfl⟩)))
+          · exact Or.inr (Or.inr (Or.inr (Or.inr rfl)))
+
+theorem guess_not_lazy (s : Text) : (guess F s).isLazy = false := by
+  rcases guess_cases F s with h | ⟨_, h⟩ | ⟨_, h⟩ | ⟨_, h⟩ | h <;> rw [h] <;> rfl
+
+/-- the value `write_to` works on is never a lazy one -/
+theorem resolveRaw_not_lazy (r : RawValue F.Num) : (resolveRaw F r).isLazy = false := by
+  cases r <;> first | rfl | exact guess_not_lazy F _
+
+theorem resolveRaw_of_not_lazy {r : RawValue F.Num} (h : r.isLazy = false) : resolveRaw F r = r := by
+  cases r <;> first | rfl | simp [RawValue.isLazy] at h
+
+theorem resolveRaw_idem (r : RawValue F.Num) : resolveRaw F (resolveRaw F r) = resolveRaw F r :=
+  resolveRaw_of_not_lazy F (resolveRaw_not_lazy F r)
+
+theorem resolved_of_not_lazy {c : Cell F.Num} (h : c.raw.isLazy = false) : Cell.resolved F c = c := by
+  obtain ⟨col, row, raw, fo, styled⟩ := c
+  simp only [Cell.resolved]
+  rw [resolveRaw_of_not_lazy F h]
+
+theorem resolved_idem (c : Cell F.Num) : Cell.resolved F (Cell.resolved F c) = Cell.resolved F c :=
+  resolved_of_not_lazy F (resolveRaw_not_lazy F c.raw)
+
+theorem blankUnstyled_of_not_lazy {c : Cell F.Num} (h : c.raw.isLazy = false) : blankUnstyled F c = blankCore F c := by
+  unfold blankUnstyled; rw [resolved_of_not_lazy F h]
+
+theorem blankUnstyled_resolved (c : Cell F.Num) : blankUnstyled F (Cell.resolved F c) = blankUnstyled F c := by
+  unfold blankUnstyled; rw [resolved_idem]
+
+/-- `write_to` of a cell whose value is not lazy is the body -/
+theorem writeTo_of_not_lazy (tbl : Table) {c : Cell F.Num} (h : c.raw.isLazy = false) :
+    writeTo F tbl c = writeCore F tbl c := by
+  unfold writeTo; rw [resolved_of_not_lazy F h]
+
+/-- the literal shape of the repaired `write_to`: a lazy value is converted on a clone and the clone is written -/
+theorem writeTo_lazy (tbl : Table) (c : Cell F.Num) (s : Text) (h : c.raw = .lazy s) :
+    writeTo F tbl c = writeTo F tbl { c with raw := guess F s } := by
+  have e : Cell.resolved F c = { c with raw := guess F s } := by simp [Cell.resolved, h, resolveRaw]
+  have e2 : writeTo F tbl { c with raw := guess F s } = writeCore F tbl { c with raw := guess F s } :=
+    writeTo_of_not_lazy F tbl (guess_not_lazy F s)
+  rw [e2, ← e]; rfl
+
 end
 
 theorem upper_boolText (b : Bool) : (upper (boolText b) = sTRUE) ↔ b = true := by
